@@ -301,6 +301,41 @@ theorem binIndex_brackets (e : List ℝ) (x : ℝ) (i : Nat) (h : binIndex e x =
       simp only [List.getElem?_cons_zero, Option.some.injEq] at e1
       rw [← e1]; exact hlo
 
+
+/-- … for sorted edges "has a bin" means "lies between the first and the last edge" … -/
+theorem in_range_iff (lo : ℝ) (t : List ℝ) (x : ℝ) (ht : t ≠ []) (hs : (lo :: t).Pairwise (· ≤ ·)) :
+    (binIndex (lo :: t) x).isSome = true ↔ lo ≤ x ∧ x ≤ t.getLast ht :=
+  binIndex_isSome_iff lo t x ht hs
+
+/-- … so on the upper-hemisphere grid (azimuth edges from `0` to `2π`, polar edges from `0` to `π/2`, sorted) the
+binned samples are exactly the non-zero vectors of the closed upper hemisphere `z ≥ 0`; on the lower grid
+(polar edges from `π/2` to `π`) exactly those with `z ≤ 0`.  Together with `hist_conserves`: the histogram's total
+is the total weight of the vectors in the hemisphere. -/
+theorem binned_iff_in_hemisphere (ta tp : List ℝ) (hta : ta ≠ []) (htp : tp ≠ []) (p0 : ℝ)
+    (hsa : ((0 : ℝ) :: ta).Pairwise (· ≤ ·)) (hsp : (p0 :: tp).Pairwise (· ≤ ·))
+    (hla : ta.getLast hta = 2 * Real.pi) (v : Vec3 ℝ) (hv : 0 < Vec3.normSq v) :
+    (p0 = 0 → tp.getLast htp = Real.pi / 2 →
+      ((bin2 (0 :: ta) (p0 :: tp) (azimuth v) (polar v)).isSome = true ↔ 0 ≤ v.z))
+    ∧ (p0 = Real.pi / 2 → tp.getLast htp = Real.pi →
+      ((bin2 (0 :: ta) (p0 :: tp) (azimuth v) (polar v)).isSome = true ↔ v.z ≤ 0)) := by
+  obtain ⟨ha0, ha1⟩ := azimuth_range v
+  obtain ⟨hp0, hp1, hup, hlo⟩ := polar_range v hv
+  have haz : (binIndex (0 :: ta) (azimuth v)).isSome = true := by
+    rw [binIndex_isSome_iff 0 ta _ hta hsa, hla]; exact ⟨ha0, ha1.le⟩
+  have key : (bin2 (0 :: ta) (p0 :: tp) (azimuth v) (polar v)).isSome = true
+      ↔ (binIndex (p0 :: tp) (polar v)).isSome = true := by
+    simp only [bin2]
+    cases h1 : binIndex (0 :: ta) (azimuth v) with
+    | none => rw [h1] at haz; simp at haz
+    | some i => cases h2 : binIndex (p0 :: tp) (polar v) <;> simp
+  constructor
+  · intro h0 hl
+    rw [key, binIndex_isSome_iff p0 tp _ htp hsp, h0, hl, ← hup]
+    exact ⟨fun h => h.2, fun h => ⟨hp0, h⟩⟩
+  · intro h0 hl
+    rw [key, binIndex_isSome_iff p0 tp _ htp hsp, h0, hl, ← hlo]
+    exact ⟨fun h => h.1, fun h => ⟨h, hp1⟩⟩
+
 /-- non-negative weights give a non-negative histogram -/
 theorem hist_nonneg (ea ep : List ℝ) (pts : List (ℝ × ℝ × ℝ)) (hw : ∀ p ∈ pts, 0 ≤ p.2.2) :
     ∀ x ∈ hist2 ea ep pts, 0 ≤ x := by
